@@ -30,23 +30,42 @@ Min2(a, b) == IF a < b THEN a ELSE b
 
 ----------------------------------------------------------------------------
 (* ---- execution objects (copies of the execution with their contexts) ---- *)
-RECURSIVE Canceled(_, _), Err(_, _)
-Canceled(X, o) == o # 0 /\ (X.objs[o].can \/ Canceled(X, X.objs[o].par))
+(* Cancelling a context is NOT one step for its descendants (context.cancelCtx.cancel: the context's own error is    *)
+(* stored first - an atomic that Err() and Done() read without the lock - and the children are cancelled one by one   *)
+(* afterwards, before cancel() returns).  objs[d].lag = the thread whose cancel() call has not reached descendant d   *)
+(* yet (0: none); lagm = that call is made inside execution.Cancel, i.e. under the execution mutex, so that a reader   *)
+(* that takes the mutex first (IsCanceledWithResult, Cancel, IsCanceled) waits for it and sees it complete.            *)
+RECURSIVE Canceled(_, _), Err(_, _), CanceledF(_, _), ErrF(_, _), TrulyCanceled(_, _), IsUnder(_, _, _)
+\* as seen by a reader holding the execution mutex
+Canceled(X, o) == o # 0 /\ (X.objs[o].can \/ ((X.objs[o].lag = 0 \/ X.objs[o].lagm) /\ Canceled(X, X.objs[o].par)))
 \* ctx.Err(): a context cancelled through its parent reports the parent's error
 Err(X, o) == IF o = 0 THEN Nil ELSE IF X.objs[o].can THEN Leaf(X.objs[o].cause) ELSE Err(X, X.objs[o].par)
-CancelCtx(X, o, cause) == IF Canceled(X, o) THEN X ELSE [X EXCEPT !.objs[o].can = TRUE, !.objs[o].cause = cause]
+\* as seen by a reader that takes no lock (ctx.Done() in a select, ctx.Err() in LastError())
+CanceledF(X, o) == o # 0 /\ (X.objs[o].can \/ (X.objs[o].lag = 0 /\ CanceledF(X, X.objs[o].par)))
+ErrF(X, o) == Err(X, o)
+TrulyCanceled(X, o) == o # 0 /\ (X.objs[o].can \/ TrulyCanceled(X, X.objs[o].par))
+IsUnder(X, d, o) == d # 0 /\ (X.objs[d].par = o \/ IsUnder(X, X.objs[d].par, o))
+\* cancel(): by thread ow (0: before anything else runs - nothing can observe the propagation), m: under the execution mutex
+CancelCtx(X, o, cause, ow, m) ==
+  IF TrulyCanceled(X, o) THEN X
+  ELSE [X EXCEPT !.objs = [d \in 1..Len(X.objs) |->
+           IF d = o THEN [X.objs[d] EXCEPT !.can = TRUE, !.cause = cause]
+           ELSE IF ow # 0 /\ IsUnder(X, d, o) /\ ~TrulyCanceled(X, d) THEN [X.objs[d] EXCEPT !.lag = ow, !.lagm = m]
+           ELSE X.objs[d]]]
+\* the cancel() calls of thread t that are still under way, and the step that reaches one more descendant
+Lagging(X, t) == {d \in 1..Len(X.objs) : X.objs[d].lag = t}
 NewObj(X, par, hedge) ==
-  [X EXCEPT !.objs = Append(@, [par |-> par, can |-> FALSE, cause |-> "-", hedge |-> hedge \/ X.objs[par].hedge, cf |-> TRUE]),
+  [X EXCEPT !.objs = Append(@, [par |-> par, can |-> FALSE, cause |-> "-", hedge |-> hedge \/ X.objs[par].hedge, cf |-> TRUE, lag |-> 0, lagm |-> FALSE]),
             !.last = Append(@, X.last[par])]
 
 \* execution.IsCanceledWithResult (under the execution mutex)
 CancelResult(X, o) == IF X.cres = NilPR THEN Failure(Err(X, o)) ELSE X.cres
 \* execution.Cancel(result) (under the mutex): no-op when already cancelled; records the result in the cell shared by all
 \* copies, then cancels this copy's context if it has a cancel function
-CancelExec(X, o, result) ==
+CancelExec(X, o, result, ow) ==
   IF Canceled(X, o) THEN X
   ELSE LET X1 == [X EXCEPT !.cres = result, !.last[o] = IF result = NilPR THEN @ ELSE Pair(result.r, result.e)] IN
-       IF X.objs[o].cf THEN CancelCtx(X1, o, "CtxCanceled") ELSE X1
+       IF X.objs[o].cf THEN CancelCtx(X1, o, "CtxCanceled", ow, TRUE) ELSE X1
 
 ----------------------------------------------------------------------------
 (* ---- state threading ---- *)
@@ -74,7 +93,7 @@ Snap(X, last) == [att |-> X.att, exe |-> X.exe, ret |-> X.ret, hdg |-> X.hdg, lr
 \* the copy's context is done (execution.go LastError); o = the copy the event is built from
 LabA(ev, S, t, layer, last, extra, o) ==
   LET X == XX(S, t)
-      last2 == IF IsNil(last.e) /\ Canceled(X, o) THEN Pair(last.r, Err(X, o)) ELSE last IN
+      last2 == IF IsNil(last.e) /\ CanceledF(X, o) THEN Pair(last.r, ErrF(X, o)) ELSE last IN
   [ev |-> ev, x |-> S.th[t].x, L |-> layer] @@ Snap(X, last2) @@ extra
 \* events built from ExecutionInfo + explicit result/error (done events)
 LabD(ev, S, t, layer, last, extra) ==
@@ -94,7 +113,7 @@ DownSteps(S, t) ==
          f == IF k <= Len(cfg.fns[T.x]) THEN cfg.fns[T.x][k] ELSE cfg.fnDefault
          X1 == [X EXCEPT !.calls = k, !.callobj = Append(@, o)]
          S1 == [Block(SetX(S, t, X1), t, [k |-> "fn", until |-> now + f.d, coop |-> f.coop, kk |-> k]) EXCEPT !.th[t].sub = "-"]
-     IN One(S1, Lab("FnStart", S, t, N + 1, T.snap, [k |-> k, hedge |-> X.objs[o].hedge, canceled |-> Canceled(X, o)]))
+     IN One(S1, Lab("FnStart", S, t, N + 1, T.snap, [k |-> k, hedge |-> X.objs[o].hedge, canceled |-> CanceledF(X, o)]))
   ELSE
   LET p == Stack[i] IN
   CASE p.k \in {"retry", "fb"} -> Silent(Desc(S, t))
@@ -130,7 +149,7 @@ DownSteps(S, t) ==
          ELSE Silent(Block([S EXCEPT !.pol[p.id] = [nextFree |-> nn]], t, [k |-> "rl", until |-> now + w, coop |-> TRUE, kk |-> 0]))
     [] p.k = "bh" ->
          \* phase 1: select { ctx.Done / semaphore <- / default }
-         LET canc == Canceled(X, o)   free == S.pol[p.id] < p.max IN
+         LET canc == CanceledF(X, o)   free == S.pol[p.id] < p.max IN
          (IF canc THEN Silent(Ret(S, t, i - 1, Failure(Err(X, o)))) ELSE {})
          \cup (IF free THEN Silent(Desc([S EXCEPT !.pol[p.id] = @ + 1], t)) ELSE {})
          \cup (IF ~canc /\ ~free
@@ -213,7 +232,7 @@ HedgeCancelLosers(S, t, i, win, res) ==
   LET T == TT(S, t)   X == XX(S, t)   h == T.hg[i]
       losers == {j \in 1..Len(h.aobj) : j # win}
       RECURSIVE CancelAll(_, _)
-      CancelAll(Xc, Js) == IF Js = {} THEN Xc ELSE LET j == CHOOSE j \in Js : \A j2 \in Js : j <= j2 IN CancelAll(CancelExec(Xc, h.aobj[j], NilPR), Js \ {j})
+      CancelAll(Xc, Js) == IF Js = {} THEN Xc ELSE LET j == CHOOSE j \in Js : \A j2 \in Js : j <= j2 IN CancelAll(CancelExec(Xc, h.aobj[j], NilPR, t), Js \ {j})
   IN SetX(Ret(S, t, i - 1, res), t, CancelAll(X, losers))
 
 UpSteps(S, t) ==
@@ -279,21 +298,21 @@ TimerSteps(S, t) ==
              ELSE [S EXCEPT !.th[t].sub = "cancel"],
              [ev |-> "OnTimeoutExceeded", x |-> T.x, L |-> i])
     [] T.sub = "cancel" ->  \* execInternal.Cancel(timeoutResult)
-         Silent(End(SetX(S, t, CancelExec(X, T.obj, Failure(Leaf("TimeoutExceeded")))), t))
+         Silent(End(SetX(S, t, CancelExec(X, T.obj, Failure(Leaf("TimeoutExceeded")), t)), t))
 
 \* ---- a goroutine of the environment cancelling something: the call's start and return are visible, the change is not ----
 CancellerSteps(S, t) ==
   LET T == TT(S, t)   X == XX(S, t) IN
-  CASE T.sub = "ctx" -> Silent([SetX(S, t, CancelCtx(X, 1, "CtxCanceled")) EXCEPT !.th[t].sub = "ret"])
-    [] T.sub = "deadline" -> Silent([SetX(S, t, CancelCtx(X, 1, "CtxDeadline")) EXCEPT !.th[t].sub = "ret"])
+  CASE T.sub = "ctx" -> Silent([SetX(S, t, CancelCtx(X, 1, "CtxCanceled", t, FALSE)) EXCEPT !.th[t].sub = "ret"])
+    [] T.sub = "deadline" -> Silent([SetX(S, t, CancelCtx(X, 1, "CtxDeadline", t, FALSE)) EXCEPT !.th[t].sub = "ret"])
     \* ExecutionResult.Cancel: execution.Cancel(ErrExecutionCanceled result) under the mutex ...
     [] T.sub = "async1" ->
-         LET S1 == [SetX(S, t, [CancelExec(X, 2, Failure(Leaf("ExecCanceled"))) EXCEPT !.cancel1 = TRUE]) EXCEPT !.th[t].sub = "async2"] IN
+         LET S1 == [SetX(S, t, [CancelExec(X, 2, Failure(Leaf("ExecCanceled")), t) EXCEPT !.cancel1 = TRUE]) EXCEPT !.th[t].sub = "async2"] IN
          \* (the harness can hold the canceller between the two halves for T.idx units: hook "asyncCancel.mid")
          IF T.idx > 0 THEN Silent([S1 EXCEPT !.th[t].mode = "wait", !.th[t].w = [k |-> "csleep", until |-> now + T.idx, coop |-> FALSE, kk |-> 0]])
          ELSE Silent(S1)
     \* ... then, separately, the result's own cancelFunc()
-    [] T.sub = "async2" -> Silent([SetX(S, t, CancelCtx(X, 2, "CtxCanceled")) EXCEPT !.th[t].sub = "ret"])
+    [] T.sub = "async2" -> Silent([SetX(S, t, CancelCtx(X, 2, "CtxCanceled", t, FALSE)) EXCEPT !.th[t].sub = "ret"])
     [] T.sub = "ret" -> One(End(S, t), [ev |-> "CancelRet", x |-> T.x])
 
 ----------------------------------------------------------------------------
@@ -302,23 +321,23 @@ WakeSteps(S, t) ==
   LET T == TT(S, t)   X == XX(S, t)   w == T.w   i == T.i   o == T.obj IN
   CASE w.k = "fn" ->
          LET f == IF w.kk <= Len(cfg.fns[T.x]) THEN cfg.fns[T.x][w.kk] ELSE cfg.fnDefault
-             early == w.coop /\ Canceled(X, o)
+             early == w.coop /\ CanceledF(X, o)
              \* what the function reads from its copy of the execution when it ends: the copy's last result, and LastError() =
              \* the copy's last error, else the context's error once the copy's context is done
-             lastNow == IF IsNil(T.snap.e) /\ Canceled(X, o) THEN Pair(T.snap.r, Err(X, o)) ELSE T.snap
+             lastNow == IF IsNil(T.snap.e) /\ CanceledF(X, o) THEN Pair(T.snap.r, ErrF(X, o)) ELSE T.snap
          IN (IF early THEN One([S EXCEPT !.th[t].mode = "fnret", !.th[t].res = PR("R0", Leaf("ECoop"), TRUE, TRUE, TRUE), !.th[t].w = NoWait],
                                  [ev |-> "FnEnd", x |-> T.x, k |-> w.kk, r |-> "R0", e |-> Leaf("ECoop"), canceled |-> TRUE, lr |-> lastNow.r, le |-> lastNow.e]) ELSE {})
             \cup (IF w.until <= now THEN One([S EXCEPT !.th[t].mode = "fnret", !.th[t].res = PR(f.r, f.e, TRUE, TRUE, TRUE), !.th[t].w = NoWait],
-                                 [ev |-> "FnEnd", x |-> T.x, k |-> w.kk, r |-> f.r, e |-> f.e, canceled |-> Canceled(X, o), lr |-> lastNow.r, le |-> lastNow.e]) ELSE {})
+                                 [ev |-> "FnEnd", x |-> T.x, k |-> w.kk, r |-> f.r, e |-> f.e, canceled |-> CanceledF(X, o), lr |-> lastNow.r, le |-> lastNow.e]) ELSE {})
     [] w.k = "rdelay" ->
-         IF w.until <= now \/ Canceled(X, o) THEN Silent([S EXCEPT !.th[t].mode = "up", !.th[t].w = NoWait]) ELSE {}
+         IF w.until <= now \/ CanceledF(X, o) THEN Silent([S EXCEPT !.th[t].mode = "up", !.th[t].w = NoWait]) ELSE {}
     [] w.k = "sleep" ->
          IF w.until <= now THEN Silent([S EXCEPT !.th[t].mode = "up", !.th[t].w = NoWait]) ELSE {}
     [] w.k = "rl" ->
          \* select { timer / exec.Canceled() }: cancelled => the failure is exec.LastError() (last error, else the context's)
          (IF w.until <= now THEN Silent([Desc(S, t) EXCEPT !.th[t].w = NoWait]) ELSE {})
-         \cup (IF Canceled(X, o)
-               THEN LET le == IF IsNil(X.last[o].e) THEN Err(X, o) ELSE X.last[o].e IN
+         \cup (IF CanceledF(X, o)
+               THEN LET le == IF IsNil(X.last[o].e) THEN ErrF(X, o) ELSE X.last[o].e IN
                     \* StaleLastErrorOnCancelledWait (named deviation): when the last recorded error is the limiter's own
                     \* ErrExceeded (an earlier refused attempt), the executor takes it for a refusal and calls OnRateLimitExceeded
                     IF le = Leaf("RateExceeded")
@@ -333,7 +352,7 @@ WakeSteps(S, t) ==
          IF w.until <= now THEN Silent([S EXCEPT !.th[t].mode = "canc", !.th[t].w = NoWait]) ELSE {}
     [] w.k = "bh" ->
          LET p == Stack[i] IN
-         (IF Canceled(X, o) THEN Silent([Ret(S, t, i - 1, Failure(Err(X, o))) EXCEPT !.th[t].w = NoWait]) ELSE {})
+         (IF CanceledF(X, o) THEN Silent([Ret(S, t, i - 1, Failure(ErrF(X, o))) EXCEPT !.th[t].w = NoWait]) ELSE {})
          \cup (IF S.pol[p.id] < p.max THEN Silent([Desc([S EXCEPT !.pol[p.id] = @ + 1], t) EXCEPT !.th[t].w = NoWait]) ELSE {})
          \cup (IF w.until <= now THEN Silent([S EXCEPT !.th[t].mode = "onfull", !.th[t].w = NoWait]) ELSE {})
     [] w.k = "hedge" ->
@@ -351,7 +370,10 @@ WakeSteps(S, t) ==
     [] OTHER -> {}
 
 Steps(S, t) ==
-  LET T == TT(S, t) IN
+  LET T == TT(S, t)   lg == Lagging(XX(S, t), t) IN
+  \* a cancel() call of this thread is still walking the context tree: it reaches one more descendant
+  IF lg # {} THEN {[S |-> SetX(S, t, [XX(S, t) EXCEPT !.objs[d].lag = 0, !.objs[d].lagm = FALSE]), lab |-> NoLab] : d \in lg}
+  ELSE
   CASE T.mode = "end" -> {}
     [] T.mode = "fnret" -> Silent(Ret(SetX(S, t, [XX(S, t) EXCEPT !.exe = @ + 1]), t, N, T.res))     \* execution.record()
     [] T.mode = "canc" -> CancellerSteps(S, t)
@@ -392,8 +414,8 @@ Steps(S, t) ==
 ----------------------------------------------------------------------------
 (* ---- environment script ---- *)
 FreshExec(e) ==
-  [objs |-> <<[par |-> 0, can |-> FALSE, cause |-> "-", hedge |-> FALSE, cf |-> FALSE],          \* 1: the caller's context
-              [par |-> 1, can |-> FALSE, cause |-> "-", hedge |-> FALSE, cf |-> cfg.asyncFix]>>,   \* 2: async: child context of the result
+  [objs |-> <<[par |-> 0, can |-> FALSE, cause |-> "-", hedge |-> FALSE, cf |-> FALSE, lag |-> 0, lagm |-> FALSE],          \* 1: the caller's context
+              [par |-> 1, can |-> FALSE, cause |-> "-", hedge |-> FALSE, cf |-> cfg.asyncFix, lag |-> 0, lagm |-> FALSE]>>,   \* 2: async: child context of the result
    last |-> <<NoLast, NoLast>>, cres |-> NilPR, att |-> 1, ret |-> 0, hdg |-> 0, exe |-> 0, calls |-> 0, t0 |-> now,
    rs |-> [j \in 1..N |-> [failed |-> 0, exceeded |-> FALSE]], final |-> NilPR, returned |-> FALSE, async |-> e.async, cancel1 |-> FALSE,
    stored |-> FALSE, doneflag |-> FALSE, closed |-> FALSE, callobj |-> <<>>, spurious |-> 0]
@@ -408,7 +430,7 @@ EnvSteps(S) ==
                   root == IF e.async THEN 2 ELSE 1
                   m == [NewThread(e.x, "main", "down", 1, root, 0, 0, 0, NoWait) EXCEPT !.mode = IF N = 0 THEN "down" ELSE "down"] IN
               \* (e.id = "precanceled": the caller's context is already done when the execution starts)
-              One([S EXCEPT !.xs[e.x] = IF e.id = "precanceled" THEN CancelCtx(X, 1, "CtxCanceled") ELSE X, !.th = Append(@, m)], [ev |-> "Start", x |-> e.x])
+              One([S EXCEPT !.xs[e.x] = IF e.id = "precanceled" THEN CancelCtx(X, 1, "CtxCanceled", 0, FALSE) ELSE X, !.th = Append(@, m)], [ev |-> "Start", x |-> e.x])
          [] e.what \in {"CtxCancel", "CtxDeadline", "AsyncCancel"} ->
               LET c == [NewThread(e.x, "canc", "canc", 0, 0, 0, 0, IF e.what = "AsyncCancel" THEN e.gap ELSE 0, NoWait) EXCEPT
                            !.sub = CASE e.what = "CtxCancel" -> "ctx" [] e.what = "CtxDeadline" -> "deadline" [] OTHER -> "async1"] IN
